@@ -28,6 +28,11 @@ def dispatchWF (op : String) (args : List String) : Option String :=
   | "tspan", [secs] => some (showCps (luisTimeSpan (parseNat secs)))
   | "durtimex", [n, code] => some (showCps (durationTimex (parseNat n) (parseCps code)) ++ " " ++
       (match codeSeconds (parseCps code) with | some k => toString (parseNat n * k) | none => "none"))
+  | "addperiod", [m, a, b] =>
+    let show2 (o : Option (Option Str)) : String := match o with
+      | none => "absent" | some none => "null" | some (some s) => showCps s
+    let (s, e) := addPeriod (parseCps m) (optField a) (optField b)
+    some (show2 s ++ "\t" ++ show2 e)
   | "dettype", [t, m] => some (showCps (determineType (parseCps t) (m == "1")))
   | "ressingle", [t, x, p, f] => some (";".intercalate ((resolveSingle (parseCps t) (parseCps x) (parseCps p) (parseCps f)).map
       fun v => showCps (v.value.getD [])))
